@@ -35,6 +35,16 @@
     statement kind that is not lowered, a method that changes a held container in a way that is not modelled: each is recorded in
     `trace.lost` / `trace.escaped` / `trace.undecided`; the rules then report an analysis error and never conclude that an array stayed zero.
 
+  * (pass 4) counted `while` loops in any form (`while k + 1 < n`, `while True: ...; if k >= n: break`, `while k: k -= 1`, the increment first, last
+    or in between; `k = k + 1`), `for` / `else` without a break, `enumerate(zip(...))` and other nestings of enumerate / zip / range / count (one
+    counter), iterating over `X.T` and `X.T[k]` (columns of X), `reversed(...)` of a lone iterable; `dict(zip(...))`, `dict(k=v)`, `**dict`,
+    `d.values() / keys() / items()`, `vars(namespace)`, list.pop, `a, *rest = seq`, x.__setitem__; `a and f()` / `a or f()` with Python's short
+    circuit (an operand behind a deciding one is not evaluated); properties, class methods, `super().m()`, `type(self).m()`, `Cls.m(self, ...)`,
+    *args / **kwargs parameters of followed functions, module-level namedtuples (`Record`), module-level lambdas and tables of lambdas,
+    functools.partial of a library function; `math.tau`, a float literal that is exactly the double of q pi^n, `complex(a, b)`, np.reciprocal,
+    ufunc.outer, np.full, np.take / .take, np.flatnonzero(x) (= the selection `x != 0`), `X[:, [k]]`, `X[..., S]` (a selector on the last axis:
+    `axL`); sizes compared with 1.
+
 Nothing of pyyeti is imported or run.  `rewrite` maps the atoms of a value (used to erase partition indices for the formula rules)."""
 from __future__ import annotations
 
@@ -200,6 +210,8 @@ def _literal_like(v):
 class Config:
     """truth of tests, given as {python expression text: bool}; the texts are evaluated to values once, a test is decided by its value"""
 
+    none_oracle = None      # callable(attribute name) -> True (self.<attr> is None) | False | None (not known)
+
     def __init__(self, table, label=""):
         self.label = label
         self.tab = {}
@@ -293,6 +305,14 @@ class Config:
                 pos = op in ("Is", "Eq")
                 if a.equals(b):
                     return pos
+                if op in ("Is", "IsNot") and self.none_oracle is not None:
+                    # `self.X is None` for precomputed solver state: decided by what the code assigns to self.X
+                    for x, y in ((a, b), (b, a)):
+                        sx = sym_name(x)
+                        if sym_name(y) == "None" and sx is not None and sx.startswith("self.") and sx.count(".") == 1:
+                            r = self.none_oracle(sx[5:])
+                            if r is not None:
+                                return r if pos else (not r)
                 la, lb = _literal_like(a), _literal_like(b)
                 if la is not None and lb is not None and la != lb:
                     return not pos
@@ -1353,12 +1373,20 @@ class PathEval(AutoEvaluator):
                     return r
             self._note_escape(name, node, followed=False)      # a function of the package that is not followed here
         args = node.args
-        if name in _SOLVES and not any(isinstance(x, ast.Starred) for x in args) and not any(k.arg is None for k in node.keywords):
+        star_kw = [self.ev(k.value) for k in node.keywords if k.arg is None]
+        if name in _SOLVES and not any(isinstance(x, ast.Starred) for x in args) and all(
+                isinstance(v, DictValue) and not (set(v.d) & {"a", "b", "lu_and_piv", "overwrite_a", "overwrite_b"}) for v in star_kw):
             # solve(a, b, ...) / lu_solve(lu_and_piv, b, ...): matrix and right-hand side, positional or by keyword
+            # (`**options` held item by item may add options that do not change which system is solved)
             got = dict(zip(_SOLVE_PARAMS[_SOLVES[name]], args))
             for k in node.keywords:
                 if k.arg in _SOLVE_PARAMS[_SOLVES[name]] and k.arg not in got:
                     got[k.arg] = k.value
+            tvals = [self.ev(k.value) for k in node.keywords if k.arg in ("trans", "transposed")] + [v.d[n_] for v in star_kw for n_ in ("trans", "transposed") if n_ in v.d]
+            for tv in tvals:
+                if True:
+                    if not (tv is not None and not is_unknown(tv) and not isinstance(tv, (tuple, DictValue)) and ((tv.is_const() and tv.const_value() == 0) or sym_name(tv) == "False")):
+                        got = {}          # the transposed system: not the solve the rules have a meaning for
             if len(got) == 2:
                 a, b = (self.ev(got[p_]) for p_ in _SOLVE_PARAMS[_SOLVES[name]])
                 self._record(name, node)
@@ -1767,8 +1795,6 @@ class PathEval(AutoEvaluator):
             elif not bound:
                 return NotImplemented          # type(self).method(...) of an ordinary method: not modelled
             params = params[1:]
-        if a.vararg or a.kwarg:
-            return NotImplemented
         if any(isinstance(x, (ast.Global, ast.Nonlocal)) for x in ast.walk(fn2)):
             return NotImplemented
         cv = self._call_values(node)
@@ -1779,14 +1805,22 @@ class PathEval(AutoEvaluator):
             pos = pos[1:]
         if pre is not None:
             pos, kws = list(pre[0]) + pos, {**pre[1], **kws}
-        if len(pos) > len(params):
+        if len(pos) > len(params) and not a.vararg:
             return NotImplemented
         env = dict(zip(params, pos))
         kwonly = [x.arg for x in a.kwonlyargs]
+        extra = {}
         for k, v in kws.items():
-            if (k not in params and k not in kwonly) or k in env:
+            if k in env:
                 return NotImplemented
+            if k not in params and k not in kwonly:
+                if not a.kwarg:
+                    return NotImplemented
+                extra[k] = v
+                continue
             env[k] = v
+        # (*args / **kwargs of the callee: a sequence / a table held item by item)
+        rest = tuple(pos[len(params):])
         sub = PathEval(fn2, self.ctx, self.config, self.opts, trace=self.trace, depth=self.depth + 1, stack=self.stack)
         if closure is not None:
             # a function defined inside another one reads the enclosing scope as it is when it is called; what it binds stays its own
@@ -1818,6 +1852,14 @@ class PathEval(AutoEvaluator):
             if p_ not in env and d is not None:
                 env[p_] = sub.ev(d)
         self.trace.calls.append((name, [env.get(p_) for p_ in params], {}, node, self.trace.tick()))
+        if a.vararg:
+            if a.vararg.arg in sub.buffers:
+                return NotImplemented
+            env[a.vararg.arg] = rest
+        if a.kwarg:
+            if a.kwarg.arg in sub.buffers:
+                return NotImplemented
+            env[a.kwarg.arg] = DictValue(extra)
         for p_, v in env.items():
             if p_ in sub.buffers:
                 s = sym_name(v)
@@ -1979,6 +2021,8 @@ class PathEval(AutoEvaluator):
             nm = self.trace.fresh(t.id if isinstance(t, ast.Name) else "<k>")
             self.trace.loop_syms.add(nm)
             return F.sym(nm)
+        if isinstance(it, ast.Call) and dotted(it.func) == "reversed" and len(it.args) == 1 and not it.keywords and "reversed" not in self.env:
+            it = it.args[0]          # alone (not paired with another sequence) the order of the generic iteration does not matter
         if isinstance(it, ast.Call) and dotted(it.func) == "range":
             for a in it.args:
                 self.ev(a)
